@@ -1251,7 +1251,8 @@ class TypeBlocks(ContainerOperand):
                     dtype = get_col_dtype(iloc)
                     if pos == 0:
                         dtype_last = dtype
-                    elif dtype != dtype_last:
+                    elif (dtype is None) != (dtype_last is None) or dtype != dtype_last:
+                        # NOTE: np.dtype(float) == None is True, so None (no change) is told apart first
                         # this dtype is different, so need to cast all up to (but not including) this one
                         if dtype_last is not None:
                             yield b[NULL_SLICE, slice(group_start, pos)].astype(dtype_last)
